@@ -106,6 +106,7 @@ pub fn run_extra(kind: &str, l: &[Sx]) -> String {
         "tot" => tot_case(l),
         "arity" => arity_case(),
         "serscript" => serscript_case(l),
+        "rebind" => rebind_case(l),
         "respell" => respell_case(l),
         "fnhist" => fnhist_case(l),
         "wide" => wide_case(l),
@@ -230,6 +231,35 @@ fn arity_case() -> String {
             let r = env.function_exists(n, cnt);
             let want = in_arity(a, cnt);
             let ok = match r {
+                FunctionResult::Exists { pure } => want && pure == *p,
+                FunctionResult::WrongArity { .. } => !want,
+                FunctionResult::NotFound => false,
+            };
+            if !ok {
+                bad_arity.push(format!("{n}/{cnt}"));
+            }
+        }
+    }
+    // the registered arity is the one passed to Function::new, whatever the declaration text looks like: defaults written with `=`, comparison signs, brackets, no parameter list at all
+    let decls: Vec<(&str, &str, Arity, bool)> = vec![
+        ("kv", "kv(line: String, separator: String = '='): Array", Arity::optional(1, 1), true),
+        ("ge", "ge(a >= b, c == d): Boolean", Arity::required(2), true),
+        ("dfl", "dfl(x: Number = 1, y: Number = 2, z: Number = 3): Number", Arity::optional(1, 1), false),
+        ("alld", "alld(a = 1, b = 2)", Arity::required(2), true),
+        ("noparen", "noparen", Arity::required(1), true),
+        ("dots", "dots(...values: Any = []): Any", Arity::Variadic, true),
+        ("nonedef", "nonedef(a = 1)", Arity::None, true),
+        ("opt0", "opt0(a: Any = (1, 2), b: Any = [3, 4])", Arity::optional(0, 2), true),
+    ];
+    let mut denv = StaticEnvironment::default();
+    for (_, d, a, p) in &decls {
+        denv.add_function(if *p { Function::new(t0, *a, d) } else { Function::impure(t0, *a, d) });
+    }
+    for (n, _, a, p) in &decls {
+        for cnt in 0..9usize {
+            checked += 1;
+            let want = in_arity(a, cnt);
+            let ok = match denv.function_exists(n, cnt) {
                 FunctionResult::Exists { pure } => want && pure == *p,
                 FunctionResult::WrongArity { .. } => !want,
                 FunctionResult::NotFound => false,
@@ -541,6 +571,24 @@ pub fn expr_has_nonfinite(e: &Expression) -> bool {
         Expression::Call { params, .. } => params.iter().any(expr_has_nonfinite),
     }
 }
+// C03 (and C19): execute sees the binding that the latest add_variable / remove_variable calls established - an environment that lived through an earlier binding of the same names
+// evaluates like a fresh one holding the current binding
+fn rebind_case(l: &[Sx]) -> String {
+    let pairs = |x: &Sx| -> Vec<(String, Value)> { list(x)[1..].iter().map(|v| { let p = list(v); (string(&p[0]), value(&p[1])) }).collect() };
+    let (v1, v2) = (pairs(&l[2]), pairs(&l[3]));
+    let e = expr(&l[4]);
+    let mut env = StaticEnvironment::default();
+    for (n, v) in &v1 { env.add_variable(n, v.clone()); }
+    for (n, _) in &v1 {
+        if !v2.iter().any(|(m, _)| m.to_lowercase() == n.to_lowercase()) { env.remove_variable(n); }
+    }
+    for (n, v) in &v2 { env.add_variable(n, v.clone()); }
+    let r = execute(&env, &e);
+    let mut fresh = StaticEnvironment::default();
+    for (n, v) in &v2 { fresh.add_variable(n, v.clone()); }
+    let r2 = execute(&fresh, &e);
+    format!("R={} ## rebind={}", show_res(&r), if show_res(&r) == show_res(&r2) { "holds" } else { "FAILS" })
+}
 fn serscript_case(l: &[Sx]) -> String {
     let text = cps_to_string(&l[2..]);
     let mut env = StaticEnvironment::default();
@@ -560,7 +608,7 @@ fn serscript_case(l: &[Sx]) -> String {
                 None => false,
             };
             let ok = v1 && t1 && v2 && t2 && behaves;
-            format!("R=compiled ## roundtrip={} nonfinite={}", if ok { "holds" } else { "FAILS" }, nonfinite)
+            format!("R=compiled E={} ## roundtrip={} nonfinite={}", show_expr(&o), if ok { "holds" } else { "FAILS" }, nonfinite)
         }
     }
 }
